@@ -276,6 +276,14 @@ def normalize(model):
     nsw = lower_switches(model)
     if nsw:
         notes.append("%d switch statement(s) lowered to if / else-if chains" % nsw)
+    enumerators_in_order_tests(model)
+    address_locals_to_lvalues(model)
+    nfw = for_refetch_to_while(model)
+    if nfw:
+        notes.append("%d fetching for loop(s) rewritten as loop-and-a-half" % nfw)
+    nca = split_chained_assignments(model)
+    if nca:
+        notes.append("%d chained assignment(s) split into single stores" % nca)
     npc = pointer_cursors_to_indexes(model)
     if npc:
         notes.append("%d function(s) with pointer cursors into one array rewritten with index cursors" % npc)
@@ -452,6 +460,81 @@ def resolve_const_subscripts(f):
     return n
 
 
+def propagate_literal_params(f):
+    """An inlined helper's parameter copy `T p = <literal>` (integer, enumerator, NULL) that is never assigned and whose
+    address is not taken: every read is the literal."""
+    if f.body is None:
+        return False
+    assigned = _assigned_ids(f.body)
+    lits = {}
+    for x in walk(f.body):
+        if x["kind"] == "VarDecl" and str(x.get("id", "")).startswith("inl") and kids(x) and x["id"] not in assigned:
+            i0 = strip(kids(x)[0], casts=True)
+            if i0["kind"] in ("IntegerLiteral", "CXXBoolLiteralExpr", "GNUNullExpr") or \
+                    (i0["kind"] == "DeclRefExpr" and i0.get("ref", {}).get("kind") == "EnumConstantDecl"):
+                lits[x["id"]] = kids(x)[0]
+    if not lits:
+        return False
+    changed = False
+    for x in walk(f.body):
+        ch = x.get("inner")
+        if not ch or x["kind"] == "VarDecl" and x.get("id") in lits:
+            continue
+        for i, c in enumerate(ch):
+            c0 = c
+            while c0["kind"] == "ImplicitCastExpr" and c0.get("castKind") == "LValueToRValue" and kids(c0):
+                c0 = kids(c0)[0]
+            if c0["kind"] == "DeclRefExpr" and c0.get("ref", {}).get("id") in lits:
+                ch[i] = _mk("ParenExpr", [copy.deepcopy(lits[c0["ref"]["id"]])], type=c.get("type"), file=c.get("file"),
+                            line=c.get("line"), col=c.get("col"))
+                changed = True
+    return changed
+
+
+def forward_condition_flags(f):
+    """`r = (a == b); if (r) ...` with r a result local of inlined code that is read nowhere else: `if (a == b) ...`."""
+    if f.body is None:
+        return False
+    changed = False
+    reads = {}
+    for x in walk(f.body):
+        if x["kind"] == "DeclRefExpr" and x.get("ref", {}).get("kind") == "VarDecl":
+            reads[x["ref"]["id"]] = reads.get(x["ref"]["id"], 0) + 1
+    for blk in walk(f.body):
+        if blk["kind"] != "CompoundStmt":
+            continue
+        st = blk.get("inner") or []
+        i = 0
+        while i + 1 < len(st):
+            a, b = st[i], st[i + 1]
+            i += 1
+            if not (a["kind"] == "BinaryOperator" and a.get("opcode") == "="):
+                continue
+            l = strip(kids(a)[0], casts=True)
+            if l["kind"] != "DeclRefExpr" or not str(l["ref"].get("id", "")).startswith("inl") or reads.get(l["ref"]["id"]) != 2:
+                continue
+            e = kids(a)[1]
+            e0 = strip(e, casts=True)
+            if not _pure_expr(e) or not (e0["kind"] == "BinaryOperator" and e0.get("opcode") in ("==", "!=", "<", "<=", ">", ">=", "&&", "||")
+                                         or e0["kind"] == "UnaryOperator" and e0.get("opcode") == "!"):
+                continue
+            if b["kind"] != "IfStmt":
+                continue
+            c = kids(b)[0]
+            c0 = strip(c, casts=True)
+            neg = False
+            if c0["kind"] == "UnaryOperator" and c0.get("opcode") == "!":
+                neg = True
+                c0 = strip(kids(c0)[0], casts=True)
+            if c0["kind"] != "DeclRefExpr" or c0["ref"].get("id") != l["ref"]["id"]:
+                continue
+            newc = _mk("ParenExpr", [e], type="int", file=c.get("file"), line=c.get("line"), col=c.get("col"))
+            b["inner"][0] = _not(newc) if neg else newc
+            st.pop(i - 1)
+            changed = True
+    return changed
+
+
 def _cleanup_touched(model, touched):
     for k in touched:
         f = model.funcs.get(k)
@@ -477,6 +560,13 @@ def _cleanup_touched(model, touched):
             propagate_copies(f)
         if resolve_const_subscripts(f):
             propagate_copies(f)
+        if propagate_literal_params(f):
+            enumerators_in_order_tests(model, f)
+            for _ in range(4):
+                if not thread_flags(f):
+                    break
+            fold_pointer_null_tests(f)
+        forward_condition_flags(f)
         restore_loop_conditions(f)
     model._callgraph = None
 
@@ -637,13 +727,17 @@ def _stmt_parent(f, node):
     return None
 
 
-def _trivial_return_expr(g):
+def _trivial_return_expr(g, keep_release=True):
     """the expression of a helper that is assertions + one `return e;`, else None"""
     ret = None
     for s_ in kids(g.body):
         k = s_["kind"]
-        if k == "DoStmt" or (k in ("ParenExpr", "ConditionalOperator", "CStyleCastExpr") and
-                             any(x["kind"] == "CallExpr" and callee_ref(x) == "cmi_assert_failed" for x in walk(s_))):
+        if k == "DoStmt":
+            continue                    # a debug assertion (compiled out)
+        if k in ("ParenExpr", "ConditionalOperator", "CStyleCastExpr") and \
+                any(x["kind"] == "CallExpr" and callee_ref(x) == "cmi_assert_failed" for x in walk(s_)):
+            if keep_release:
+                return None             # a release assertion is behaviour: inline the helper as statements
             continue
         if k == "ReturnStmt" and ret is None and kids(s_):
             ret = kids(s_)[0]
@@ -785,7 +879,7 @@ def _inline_site(f, call, g):
 def _pure_expr(n):
     """no calls, assignments or increments inside"""
     for x in walk(n):
-        if x["kind"] in ("CallExpr", "CompoundAssignOperator"):
+        if x["kind"] in ("CallExpr", "CompoundAssignOperator", "AtomicExpr", "StmtExpr", "VAArgExpr"):
             return False
         if x["kind"] == "BinaryOperator" and x.get("opcode") in ("=", ","):
             return False
@@ -1337,6 +1431,36 @@ def split_small_struct_copies(model):
                                                file=st.get("file"), line=st.get("line"), col=st.get("col")))
                             n += 1
                             continue
+                if st["kind"] == "BinaryOperator" and st.get("opcode") == "=":
+                    # `*p = (struct T){ e1, ..., en };` with initialisers that read only locals and literals: member stores
+                    r0 = kids(st)[1]
+                    while r0["kind"] in ("ParenExpr", "ImplicitCastExpr") and kids(r0):
+                        r0 = kids(r0)[0]
+                    t = (st.get("type") or "").replace("const ", "").strip()
+                    if r0["kind"] == "CompoundLiteralExpr" and kids(r0) and kids(r0)[0]["kind"] == "InitListExpr" and \
+                            t.startswith("struct ") and _pure_expr(kids(st)[0]):
+                        rec = model.records.get(t[7:].strip())
+                        els = kids(kids(r0)[0])
+                        if rec and len(rec) == len(els) and \
+                                all("[" not in ft and not ft.replace("const ", "").startswith(("struct ", "union ")) or ft.rstrip().endswith("*")
+                                    for _fn, ft, _fd in rec) and \
+                                all(_pure_expr(e) and not any(y["kind"] in ("MemberExpr", "ArraySubscriptExpr", "UnaryOperator")
+                                                              and (y["kind"] != "UnaryOperator" or y.get("opcode") in ("*", "&"))
+                                                              for y in walk(e)) for e in els):
+                            for (fn_, ft_, fd_), e in zip(rec, els):
+                                if e["kind"] == "ImplicitValueInitExpr":
+                                    e = _mk("IntegerLiteral", [], value="0", type="int", file=st.get("file"), line=st.get("line"))
+                                l0 = strip(kids(st)[0])
+                                if l0["kind"] == "UnaryOperator" and l0.get("opcode") == "*":
+                                    lhs = _mk("MemberExpr", [copy.deepcopy(kids(l0)[0])], name=fn_, isArrow=True, type=ft_,
+                                              file=st.get("file"), line=st.get("line"), col=st.get("col"))
+                                else:
+                                    lhs = _mk("MemberExpr", [copy.deepcopy(kids(st)[0])], name=fn_, isArrow=False, type=ft_,
+                                              file=st.get("file"), line=st.get("line"), col=st.get("col"))
+                                out.append(_mk("BinaryOperator", [lhs, e], opcode="=", type=ft_, file=st.get("file"), line=st.get("line"),
+                                               col=st.get("col")))
+                            n += 1
+                            continue
                 out.append(st)
             blk["inner"] = out
     return n
@@ -1850,6 +1974,15 @@ def fold_pointer_null_tests(f):
     return changed
 
 
+def _noop_assert(s_):
+    """`do { sizeof(cond); } while (0)` - what a debug assertion expands to when it is compiled out"""
+    if s_["kind"] != "DoStmt" or len(kids(s_)) != 2 or _const_value(kids(s_)[1]) != 0:
+        return False
+    b = kids(s_)[0]
+    inner = kids(b) if b["kind"] == "CompoundStmt" else [b]
+    return all(strip(x, casts=True)["kind"] in ("UnaryExprOrTypeTraitExpr", "NullStmt") for x in inner)
+
+
 def restore_loop_conditions(f):
     """The inliner turns `while (helper(a)) B` into `for (;;) { <helper body>; if (!R) break; B }`.  Where the helper body is
     pure declarations followed by `if (A) R = K; else R = E;` (K a 0 / 1 literal, A and E pure) the loop gets its condition
@@ -1869,7 +2002,12 @@ def restore_loop_conditions(f):
                 continue
             if body["kind"] != "CompoundStmt":
                 continue
-            st = kids(body)
+            st = [s_ for s_ in kids(body)]
+            # compiled-out debug assertions between the helper's declarations and its result are no-ops: leave them out
+            lead = 0
+            while lead < len(st) and (st[lead]["kind"] == "DeclStmt" or _noop_assert(st[lead])):
+                lead += 1
+            st = [s_ for j_, s_ in enumerate(st) if not (j_ < lead and _noop_assert(s_))]
             k = 0
             subst = {}           # id -> initialiser (pure) of a leading declaration
             flag_ids = set()
@@ -2468,6 +2606,194 @@ def _is_ptr_type(t):
     return t.endswith("*") or bool(re.search(r"\*\s*const$", t))
 
 
+def split_chained_assignments(model):
+    """`a = b = c;` as a statement of a block, a and b side-effect-free lvalues: `b = c; a = c;` when c is free of calls,
+    does not read b and a, b have the same type; else `b = c; a = b;`.  Longer chains likewise, innermost store first."""
+    from .astutil import render as _render
+    n = 0
+    for f in model.funcs.values():
+        rel = model.rel(f.file) or ""
+        if not rel.startswith(("src/", "include/")) or f.body is None:
+            continue
+        for blk in walk(f.body):
+            if blk["kind"] != "CompoundStmt":
+                continue
+            st = blk.get("inner") or []
+            i = 0
+            while i < len(st):
+                s_ = st[i]
+                i += 1
+                if not (s_["kind"] == "BinaryOperator" and s_.get("opcode") == "="):
+                    continue
+                chain = []           # assignment nodes, outermost first
+                cur = s_
+                while True:
+                    chain.append(cur)
+                    r0 = kids(cur)[1]
+                    while r0["kind"] in ("ParenExpr", "ImplicitCastExpr") and kids(r0):
+                        r0 = kids(r0)[0]
+                    if r0["kind"] == "BinaryOperator" and r0.get("opcode") == "=":
+                        cur = r0
+                    else:
+                        break
+                if len(chain) < 2 or not all(_pure_expr(kids(a)[0]) for a in chain):
+                    continue
+                c = kids(chain[-1])[1]
+                lv = [kids(a)[0] for a in chain]
+                ty = {(x.get("type") or "").replace("const ", "").strip() for x in lv}
+                direct = len(ty) == 1 and _pure_expr(c) and not any(_render(strip(x, casts=True)) in _render(c) for x in lv)
+                out = [chain[-1]]
+                for k in range(len(chain) - 2, -1, -1):
+                    prev = lv[k + 1]
+                    rhs = copy.deepcopy(c) if direct else _mk("ImplicitCastExpr", [copy.deepcopy(prev)], castKind="LValueToRValue",
+                                                               type=prev.get("type"), file=prev.get("file"), line=prev.get("line"),
+                                                               col=prev.get("col"))
+                    o = dict(chain[k])
+                    o["inner"] = [lv[k], rhs]
+                    out.append(o)
+                st[i - 1:i] = out
+                i += len(out) - 1
+                n += 1
+    return n
+
+
+def enumerators_in_order_tests(model, only=None):
+    """An enumerator used as a bound (operand of <, <=, >, >=) is a number there: replace it by its value."""
+    n = 0
+    for f in (model.funcs.values() if only is None else [only]):
+        rel = model.rel(f.file) or ""
+        if not rel.startswith(("src/", "include/")) or f.body is None:
+            continue
+        for x in walk(f.body):
+            if x["kind"] == "BinaryOperator" and x.get("opcode") in ("<", "<=", ">", ">="):
+                ch = x["inner"]
+                for i, c in enumerate(ch):
+                    c0 = strip(c, casts=True)
+                    if c0["kind"] == "DeclRefExpr" and c0.get("ref", {}).get("kind") == "EnumConstantDecl":
+                        v = _ENUMERATORS.get(c0["ref"].get("name"))
+                        if v is not None:
+                            ch[i] = _mk("IntegerLiteral", [], value=str(v), type="int", file=c.get("file"), line=c.get("line"),
+                                        col=c.get("col"))
+                            n += 1
+    return n
+
+
+def for_refetch_to_while(model):
+    """`for (T i = E; C; i = E) B` with the same E (a call: the next item is fetched) in the initialiser and the step and no
+    `continue` in B is the loop-and-a-half `while (1) { T i = E; if (!C) break; B }`."""
+    from .astutil import render as _render
+    n = 0
+    for f in model.funcs.values():
+        rel = model.rel(f.file) or ""
+        if not rel.startswith(("src/", "include/")) or f.body is None:
+            continue
+        for x in walk(f.body):
+            ch = x.get("inner")
+            if not ch:
+                continue
+            for i, lp in enumerate(ch):
+                if lp["kind"] != "ForStmt" or len(kids(lp)) != 5:
+                    continue
+                init, _cv, cond, inc, body = kids(lp)
+                if not init or init.get("kind") != "DeclStmt" or len(kids(init)) != 1 or not kids(kids(init)[0]) or \
+                        not cond or not cond.get("kind") or not inc or not inc.get("kind"):
+                    continue
+                vd = kids(init)[0]
+                e = kids(vd)[0]
+                inc0 = strip(inc)
+                if _pure_expr(e) or inc0["kind"] != "BinaryOperator" or inc0.get("opcode") != "=":
+                    continue
+                l = strip(kids(inc0)[0], casts=True)
+                if l["kind"] != "DeclRefExpr" or l["ref"].get("id") != vd.get("id") or _render(kids(inc0)[1]) != _render(e):
+                    continue
+
+                def own_continue(nod):
+                    if nod["kind"] in ("ForStmt", "WhileStmt", "DoStmt"):
+                        return False
+                    if nod["kind"] == "ContinueStmt":
+                        return True
+                    return any(own_continue(c) for c in kids(nod))
+                if own_continue(body):
+                    continue
+                brk = _mk("IfStmt", [_not(cond), _mk("BreakStmt", [], file=lp.get("file"), line=lp.get("line"))],
+                          file=lp.get("file"), line=lp.get("line"))
+                old = list(kids(body)) if body["kind"] == "CompoundStmt" else [body]
+                nb = _mk("CompoundStmt", [init, brk] + old, file=body.get("file"), line=body.get("line"))
+                one = _mk("IntegerLiteral", [], value="1", type="int", file=lp.get("file"), line=lp.get("line"))
+                ch[i] = _mk("WhileStmt", [one, nb], file=lp.get("file"), line=lp.get("line"), endline=lp.get("endline"))
+                n += 1
+    return n
+
+
+def address_locals_to_lvalues(model):
+    """`T *const p = &X;` (or a pointer that is never assigned) with X a member chain over variables that are never
+    assigned, or a file-scope object: `*p` is X, `p->f` is X.f and p itself is &X (the same storage at every moment)."""
+    n = 0
+    for f in model.funcs.values():
+        rel = model.rel(f.file) or ""
+        if not rel.startswith(("src/", "include/")) or f.body is None:
+            continue
+        assigned = _assigned_ids(f.body)
+        local_ids = {x.get("id") for x in walk(f.body) if x["kind"] == "VarDecl"} | {p_["id"] for p_ in f.params}
+        parent = {}
+        for x in walk(f.body):
+            for c in x.get("inner") or []:
+                parent[id(c)] = x
+        for vd in [x for x in walk(f.body) if x["kind"] == "VarDecl" and kids(x) and _is_ptr_type(x.get("type"))]:
+            if vd["id"] in assigned or vd.get("storageClass") == "static":
+                continue
+            ini = strip(kids(vd)[0])
+            if ini["kind"] != "UnaryOperator" or ini.get("opcode") != "&":
+                continue
+            X = strip(kids(ini)[0])
+            if X["kind"] not in ("MemberExpr", "DeclRefExpr") or not _pure_expr(X):
+                continue
+            roots = [y for y in walk(X) if y["kind"] == "DeclRefExpr"]
+            if not roots or any(y["ref"].get("kind") not in ("VarDecl", "ParmVarDecl") for y in roots):
+                continue
+            if X["kind"] == "DeclRefExpr" and X["ref"].get("id") in local_ids:
+                continue                 # the address of a local: an out-parameter idiom, handled elsewhere
+            if any(y["ref"].get("id") in assigned and y["ref"].get("id") in local_ids for y in roots if y is not X):
+                continue
+            if X["kind"] == "MemberExpr" and any(y["ref"].get("id") in assigned for y in roots):
+                continue
+            if any(y["kind"] in ("ArraySubscriptExpr", "UnaryOperator") for y in walk(X)):
+                continue
+            uses = [y for y in walk(f.body) if y["kind"] == "DeclRefExpr" and y["ref"].get("id") == vd["id"]]
+            if not uses:
+                continue
+            for u in uses:
+                top = u
+                a = parent.get(id(u))
+                while a is not None and a["kind"] in ("ParenExpr", "ImplicitCastExpr"):
+                    top = a
+                    a = parent.get(id(a))
+                if a is None:
+                    continue
+                if a["kind"] == "UnaryOperator" and a.get("opcode") == "*":
+                    pa = parent.get(id(a))
+                    if pa is None:
+                        continue
+                    for i_, c in enumerate(pa["inner"]):
+                        if c is a:
+                            pa["inner"][i_] = _mk("ParenExpr", [copy.deepcopy(X)], type=a.get("type"), file=a.get("file"),
+                                                  line=a.get("line"), col=a.get("col"))
+                elif a["kind"] == "MemberExpr" and a.get("isArrow") and kids(a)[0] is top:
+                    a["isArrow"] = False
+                    a["inner"] = [copy.deepcopy(X)]
+                else:
+                    for i_, c in enumerate(a["inner"]):
+                        if c is top:
+                            a["inner"][i_] = _mk("UnaryOperator", [copy.deepcopy(X)], opcode="&", type=vd.get("type"), file=u.get("file"),
+                                                 line=u.get("line"), col=u.get("col"))
+            # the pointer itself is dead now
+            for b_ in walk(f.body):
+                if b_["kind"] == "CompoundStmt" and b_.get("inner"):
+                    b_["inner"] = [c for c in b_["inner"] if not (c["kind"] == "DeclStmt" and len(kids(c)) == 1 and kids(c)[0] is vd)]
+            n += 1
+    return n
+
+
 def pointer_cursors_to_indexes(model):
     """Local pointers that only ever hold `B + e`, `&B[e]` or another such pointer (plus / minus an integer), for one
     pointer B that is never reassigned, walk the array B: each becomes an integer index, `*p` / `p->f` / `p - B` / `p < q`
@@ -2643,6 +2969,25 @@ def _cursor_pass(f):
             break
         for v in drop:
             cursors.pop(v, None)
+    # index arithmetic is only the same as pointer arithmetic when cursor and base point to the same type
+    def _pt(vid):
+        d = decls.get(vid) or next((p_ for p_ in f.params if p_["id"] == vid), None)
+        t = ((d or {}).get("type") or "").replace("const", "").replace(" ", "")
+        return t
+    for _ in range(4):
+        bad = {v for v in cursors if _pt(v) != _pt(cursors[v])}
+        bad |= {v for v in cursors for b, _ar in info[v][0] if isinstance(b, tuple) and b[1] not in cursors}
+        if not bad:
+            break
+        for v in bad:
+            cursors.pop(v, None)
+    # a family over one base is a set of cursors only if one of them really moves (is assigned or stepped after its
+    # initialiser); pointers computed once are left as they are
+    for b in set(cursors.values()):
+        fam = [v for v in cursors if cursors[v] == b]
+        if not any(defs.get(v) for v in fam):
+            for v in fam:
+                cursors.pop(v, None)
     if not cursors:
         return 0
     for v in cursors:
